@@ -206,6 +206,10 @@ def body_large(ctx, conv):
             lonb[j, i] = numpy.nan
             latb[j, i] = numpy.nan
         ds = builders.cf2d(nj, ni, lat=lat, lon=lon, lat_bounds=latb, lon_bounds=lonb)
+    elif conv == 'cf1d-0-360':
+        # longitudes on a 0..360 axis, crossing the antimeridian: coordinates are exported as they are
+        nj, ni = 3, 6
+        ds = builders.cf1d(nj, ni, lat=numpy.array([-10.0, -5.0, 0.0]), lon=numpy.array([170.0, 175.0, 180.0, 185.0, 190.0, 195.0]))
     else:
         ds = builders.cf1d(nj, ni)
     cv = ds.ems
@@ -239,8 +243,16 @@ def body_large(ctx, conv):
         G.write_geojson(ds, os.path.join(work, 'g.geojson'))
         if ctx.symbolic:
             props = [f['properties'] for f in Recorded.dumped]
+            rings = [([tuple(c) for c in f['geometry']['coordinates'][0][:-1]] if isinstance(f['geometry'], dict)
+                      else geo.poly_coords(f['geometry'])) for f in Recorded.dumped]
         else:
-            props = [f['properties'] for f in json.load(open(os.path.join(work, 'g.geojson')))['features']]
+            feats = json.load(open(os.path.join(work, 'g.geojson')))['features']
+            props = [f['properties'] for f in feats]
+            rings = [[tuple(c) for c in f['geometry']['coordinates'][0][:-1]] for f in feats]
+        want = [[tuple(float(v) for v in c) for c in geo.poly_coords(cv.polygons[n])] for n in present]
+        ctx.check(len(rings) == len(want) and all(
+            len(a) == len(b) and all(abs(float(p[0]) - q[0]) <= 1e-6 and abs(float(p[1]) - q[1]) <= 1e-6 for p, q in zip(a, b))
+            for a, b in zip(rings, want)), 'GeoJSON: identical coordinates (concrete grid, to the 6 decimals the geojson package keeps)')
         ctx.check(len(props) == N and all(p['linear_index'] == n and json.loads(json.dumps(p['index'])) == json.loads(json.dumps(cv.wind_index(n))) for n, p in zip(present, props)),
                   'GeoJSON: every feature carries the linear and native index of its cell (also for long indexes)')
     finally:
@@ -303,6 +315,7 @@ def cases(tier):
         yield Case(f'{conv}:{shape[0]}x{shape[1]}:{bounds}:nan{nm}:after-another-export', body,
                    dict(conv=conv, shape=shape, bounds=bounds, nan_cells=nan_cells, history=True), patches=_patches(), max_paths=5000, split=8)
     yield Case('large:cf2d-holes:3x4', body_large, dict(conv='cf2d-holes'), patches=_large_patches(), max_paths=5)
+    yield Case('large:cf1d-0-360:3x6', body_large, dict(conv='cf1d-0-360'), patches=_large_patches(), max_paths=5)
     for conv in ('shoc_standard', 'cf1d'):
         yield Case(f'large:{conv}:101x11', body_large, dict(conv=conv), patches=_large_patches(), max_paths=5)
     for mesh in (['tqp'] if q else ['tqp', 'fan', 'tq']):
